@@ -83,6 +83,10 @@ Proof.
   intros Hk Ho Hn b. specialize (Hn b). unfold swallowed. destruct (behav b p); auto; congruence.
 Qed.
 
+Lemma noswallow_strict fl behav p :
+  rf_fb_key fl = false -> rf_fb_klong fl = false -> rf_fb_other fl = false -> noswallow fl behav p.
+Proof. intros Hy Hk Ho b. unfold swallowed. destruct (behav b p); auto. Qed.
+
 Definition result_of (o : outcome) : option body := match o with OOk t => Some t | _ => None end.
 
 (* exactly the current definition runs, exactly once; the captured old function is never run while the symbol is bound *)
